@@ -301,3 +301,118 @@ func vxH_C07_compactNow() {
 	coll.Close()
 	store.Close()
 }
+
+func init() { vxRegister("vxH_C07_splice", vxH_C07_splice) }
+
+// vxH_C07_splice: one step of leveled (partial) compaction from an
+// arbitrary persisted state. Rounds of symbolic shape (parent / child /
+// both) are persisted without compaction, so the top-level collection and
+// the child collection end up with different numbers of segments; then one
+// more batch is compacted by Store.compact with a SYMBOLIC splice point in
+// [0, number of top-level segments) - the policy (calcPartialCompactionStart)
+// can return any of them, depending on segment sizes. The store's snapshot
+// and a reopened collection equal the reference afterwards.
+func vxH_C07_splice() {
+	rounds := 3
+	fs := vxNewFS()
+	so := vxStoreOptions(fs)
+	so.CollectionOptions.OnError = func(err error) {
+		vxAssert("no-persistence-error: "+err.Error(), false)
+	}
+	po := StorePersistOptions{CompactionConcern: CompactionDisable}
+	store, coll, err := OpenStoreCollection(fs.dir, so, po)
+	vxAssert("open-ok", err == nil)
+	ref := vxNewNode()
+	names := []string{"a"}
+	none := map[string]bool{}
+	var K, J vxKey
+	K.n, J.n = 1, 1
+	K.b[0], J.b[0] = 'k', 'j'
+	kb, jb := vxKeyBytes(K), vxKeyBytes(J)
+	thorough := vxTier() == 1
+	// the persisted rounds are Sets of k (thorough: Set or Del); the batch
+	// that is compacted sets or deletes k
+	mk := func(last bool) []vxEnt {
+		ents := vxFixedSet()
+		if (last || thorough) && vxChoose(2) == 1 {
+			ents[0].op = OperationDel
+			ents[0].v.n = 0
+		}
+		return ents
+	}
+	fill := func(c Collection, last bool) {
+		b, berr := c.NewBatch(4, 64)
+		vxAssert("newbatch-ok", berr == nil)
+		shape := vxChoose(3) // 0 parent, 1 child, 2 both
+		if shape != 1 {
+			ents := mk(last)
+			vxFillBatch(b, ents)
+			ref.layers = append(ref.layers, ents)
+		}
+		if shape != 0 {
+			cb, cerr := b.NewChildCollectionBatch("a", BatchOptions{TotalOps: 2, TotalKeyValBytes: 16})
+			vxAssert("childbatch-ok", cerr == nil)
+			ents := mk(last)
+			vxFillBatch(cb, ents)
+			if ref.kids["a"] == nil {
+				ref.kids["a"] = vxNewNode()
+			}
+			ref.kids["a"].layers = append(ref.kids["a"].layers, ents)
+		}
+		vxAssert("executebatch-ok", c.ExecuteBatch(b, WriteOptions{}) == nil)
+		b.Close()
+	}
+	for r := 0; r < rounds; r++ {
+		fill(coll, false)
+		vxDrain(coll)
+	}
+	// the next batch stays in memory: Close stops merger and persister
+	// first, and the collection's snapshot is what Persist would be handed
+	coll.(*collection).options.LowerLevelUpdate = nil
+	fill(coll, true)
+	cc := coll.(*collection)
+	cc.NotifyMerger("mergeAll", true)
+	vxQuiesce()
+	cc.m.Lock()
+	higher := cc.stackDirtyMid
+	if higher == nil {
+		higher = cc.stackDirtyBase
+	}
+	cc.m.Unlock()
+	vxAssert("higher-there", higher != nil)
+	if higher == nil {
+		return
+	}
+	footer, ferr := store.snapshot()
+	vxAssert("footer-ok", ferr == nil)
+	nTop := len(footer.SegmentLocs)
+	vxObserveInt("top-segments", nTop)
+	if cf := footer.ChildFooters["a"]; cf != nil {
+		vxObserveInt("child-segments", len(cf.SegmentLocs))
+	}
+	splice := 0
+	if nTop > 0 {
+		splice = vxChoose(nTop)
+	}
+	vxObserveInt("splice", splice)
+	cerr := store.compact(footer, splice, higher, StorePersistOptions{CompactionConcern: CompactionForce})
+	footer.DecRef()
+	vxAssert("compact-ok", cerr == nil)
+	ss, serr := store.Snapshot()
+	vxAssert("store-snapshot-ok", serr == nil)
+	vxCheckTree("compacted-store", ss, ref, K, kb, names, none)
+	vxCheckTree("compacted-store2", ss, ref, J, jb, names, none)
+	ss.Close()
+	coll.Close()
+	store.Close()
+	vxQuiesce()
+	store, coll, err = OpenStoreCollection(fs.dir, so, po)
+	vxAssert("reopen-ok", err == nil)
+	cs, cserr := coll.Snapshot()
+	vxAssert("coll-snapshot-ok", cserr == nil)
+	vxCheckTree("reopened", cs, ref, K, kb, names, none)
+	vxCheckTree("reopened2", cs, ref, J, jb, names, none)
+	cs.Close()
+	coll.Close()
+	store.Close()
+}
